@@ -1,0 +1,30 @@
+//go:build verif
+// +build verif
+
+package api
+
+// Exports for the /verif harness (build tag "verif" only). Add-only.
+
+import "sort"
+
+// VerifRebuildForWatch rebuilds the context with watch data collection switched on (without starting
+// the polling goroutine) and returns the result together with a function that evaluates the watch
+// predicates of that build synchronously: the paths the watcher would report as dirty right now.
+func VerifRebuildForWatch(ctx BuildContext) (BuildResult, func() []string) {
+	c := ctx.(*internalContext)
+	c.mutex.Lock()
+	c.args.options.WatchMode = true
+	c.mutex.Unlock()
+	state := c.rebuild()
+	paths := state.watchData.Paths
+	return state.result, func() []string {
+		var dirty []string
+		for _, fn := range paths {
+			if p := fn(); p != "" {
+				dirty = append(dirty, p)
+			}
+		}
+		sort.Strings(dirty)
+		return dirty
+	}
+}
